@@ -38,6 +38,17 @@ def A(pkg, name, actual):
     return {"k": "A", "pkg": pkg, "name": name, "actual": tuple(actual)}
 
 
+def norm(g):
+    """A graph read back from JSON (corpus, replay files): lists -> tuples."""
+    r = []
+    for n in g:
+        if n["k"] == "A":
+            r.append(A(n["pkg"], n["name"], n["actual"]))
+        else:
+            r.append(T(n["pkg"], n["name"], n["deps"], n["ins"], n["outs"], n["bin"], n["tags"], n["nocmd"]))
+    return r
+
+
 def lab(n):
     return (n["pkg"], n["name"])
 
@@ -467,8 +478,9 @@ def run(out, tier):
     streams = []
     corpus = os.path.join(vlib.VERIF, "corpus", "C11", "graphs.jsonl")
     if os.path.exists(corpus):
-        streams += [("corpus", json.loads(l)) for l in open(corpus) if l.strip() and not l.startswith("#")]
+        streams += [("corpus", norm(json.loads(l))) for l in open(corpus) if l.strip() and not l.startswith("#")]
     s1 = list(structure_stream())
+    n_structure = len(s1)
     if quick:
         s1 = rng.sample(s1, 20000)
     streams += [("structure", g) for g in s1]
@@ -562,7 +574,7 @@ def run(out, tier):
                 "placements x 4 dependency relations, all two-output and output+bin_output targets, %d input spellings x 3 packages, "
                 "duplicate labels, tests without command; product = seeded draws from the full <=3-node product; random = graphs of 4..12 "
                 "nodes; path functions on every string over {/ . a b} up to length %d. non-trivial = graph with at least two nodes; "
-                "distinct = distinct wire lines" % ("a seeded sample of 20000" if quick else "all", 141351, len(SPELL), len(INPUTS),
+                "distinct = distinct wire lines" % ("a seeded sample of 20000" if quick else "all", n_structure, len(SPELL), len(INPUTS),
                                                   6 if quick else 8),
         "exhaustive": not quick,
         "per_stream": per_stream,
@@ -744,6 +756,8 @@ def replay(out, path):
     rp = json.load(open(path))["replay"]
     g = rp.get("graph")
     root = rp.get("root", ROOT)
+    if g:
+        g = norm(g)
     if not g:
         line = rp["line"]
         h = vlib.build_harness("analysis", extra_overlay=export_overlay())
